@@ -139,15 +139,26 @@ def l3_batch(seed, count, nq, driver, outdir, binary=None, profiles=("opt", "loo
             q["scen"] = (1, 2, 3, 4, 2, 1, 3, 2)[qi % 8]
             # access/egress maxima vary: every generated table row is <= 600 s and the stub answers 100000 s for a stop that is
             # not in the table, so every maximum in [600, 100000) must give the model's answer; the large values exercise the
-            # walking-radius arithmetic in front of the router ("no limit" is exercised by C18's requests)
-            q["maxacc"] = r.choice([1200, 1200, 900, 40000, 99999, 120, 300])
-            q["maxegr"] = r.choice([1200, 1200, 900, 40000, 99999, 120, 300])
+            # walking-radius arithmetic in front of the router
+            # 50000 / 60000 s (their squares do not fit 32 bits) and NO limit (sent as 0, read as MAX_INT): the radius arithmetic
+            # must still let every stop through.  Without a limit the 100000 s the stub answers for a stop outside the table
+            # are admissible walks too, so the table then names every stop explicitly (same answer on the wire).
+            lims = [1200, 1200, 900, 40000, 99999, 120, 300, 1200, 50000, 60000, MAX_INT]
+            q["maxacc"] = r.choice(lims)
+            q["maxegr"] = r.choice(lims)
+            def _full(rows):
+                have = set(n for (n, _, _) in rows)
+                return list(rows) + [(n, l3.UNREACHABLE, l3.UNREACHABLE) for n in ds.nodes if n not in have]
+            if q["maxacc"] == MAX_INT:
+                acc = _full(acc)
+            if q["maxegr"] == MAX_INT:
+                egr = _full(egr)
             # boundary: a maximum EQUAL to the walking time of one of the rows (the row is kept: `<=`), so that rows slower
             # than it are dropped by the server as they are by l3.effective_rows
             for key, rows in (("maxacc", acc), ("maxegr", egr)):
                 # (>= 60 s: the points lie 11 m / 22 m from the stops, and the server's straight-line pre-filter drops every
                 # stop farther than limit * 1.39 m/s before the router is asked -- a smaller limit contradicts the layout)
-                ts = sorted(set(t for (_, t, _) in rows if t >= 60))
+                ts = sorted(set(t for (_, t, _) in rows if 60 <= t < l3.UNREACHABLE))
                 if ts and r.chance(0.3):
                     q[key] = r.choice(ts)
             if q["maxtr"] == MAX_INT and r.chance(0.5):
@@ -161,6 +172,10 @@ def l3_batch(seed, count, nq, driver, outdir, binary=None, profiles=("opt", "loo
         # empty (the router offers nothing): the NO_ACCESS_* reasons as the real renderer writes them
         if ops:
             q0 = dict([o for o in ops if o[0] == "route"][0][1])
+            for key in ("maxacc", "maxegr"):
+                # (an empty table means 100000 s to every stop: "nothing in reach" needs a limit below that)
+                if q0[key] >= l3.UNREACHABLE:
+                    q0[key] = 1200
             ops.append(("access", dict(q0), []))
             ops.append(("route", dict(q0), False, [], []))
             q1 = dict(q0); q1["fwd"] = 1 - q0["fwd"]
@@ -191,3 +206,32 @@ def l3_batch(seed, count, nq, driver, outdir, binary=None, profiles=("opt", "loo
                              verdict=ol[i] if i < len(ol) else "<missing rc=%d>" % rc_o, ds=""))
         extras[case] = (ds, ops, raws, info)
     return recs, extras
+
+
+def replay_case(path, driver, binary, workdir):
+    """a replay file written from an L3 record (dataset block + operations): the REAL server is started on the cache directory
+    written from the dataset and asked the operations; returns records in the shape l3_batch gives"""
+    import c17corpus
+    text = open(path).read()
+    body = "\n".join(l for l in text.split("\n") if not l.startswith("#"))
+    ds = c17corpus.parse_dataset(body.split("\nend")[0])
+    ops = [parse_op(l) for l in body.split("\n") if l.split() and l.split()[0] in ("route", "access")]
+    ops = [o for o in ops if o]
+    shutil.rmtree(workdir, ignore_errors=True)
+    lines, raws, info = serve_dataset((binary, ds, ops, workdir, dict()))
+    case = os.path.join(workdir, "replay.case")
+    with open(case, "w") as f:
+        f.write(normalize_dataset(ds).text())
+        f.write("\n".join(op_text(o) for o in ops) + "\n")
+    impl_path = case + ".impl"
+    with open(impl_path, "w") as f:
+        f.write("\n".join(lines) + "\n")
+    rc_m, model = run.run_cmd([driver, "model", case])
+    rc_o, orac = run.run_cmd([driver, "oracle", case, impl_path])
+    ml, ol = model.splitlines(), orac.splitlines()[1:]
+    recs = []
+    for i, o in enumerate(run.ops_of(case)):
+        recs.append(dict(case=case, idx=i, op=o, impl=lines[i] if i < len(lines) else "<missing: server died>",
+                         model=(ml[i].split(" | opt")[0].rstrip() if i < len(ml) else "<missing rc=%d>" % rc_m),
+                         verdict=ol[i] if i < len(ol) else "<missing rc=%d>" % rc_o, ds="", l3=True))
+    return recs
